@@ -1,25 +1,471 @@
-//! C10 — not built yet (stub).
+//! C10 — hit order and scores follow the sort spec and BM25.
+//!
+//! Finder (implementation alone): (a) the hits of a request are the `limit`-prefix of the hits
+//! of the same request with a limit that covers all matches; (b) consecutive hits are ordered by
+//! the statement's comparator, recomputed here from the documents' values (minimum for
+//! ascending, maximum for descending on multi-valued fields, missing last in both directions,
+//! `_score` from the returned score, ties by segment then document ordinal).
+//! Correspondence: ids in order and scores (rel 2e-5) against the Lean model
+//! (`SL.Sort.search` over keys built by `SL.Sort.buildKey`, scores from `SL.Bm25`).
+use super::c09::{analysed_segments, build_index, gen_doc, has_hook, schema_json, split_query, Ranking, TEXT_FIELDS};
+use crate::idx;
 use crate::proto::Driver;
 use crate::rng::Rng;
 use crate::summary::Summary;
+use crate::util::scratch;
 use crate::{Prop, Tier};
 use serde_json::{json, Value};
+use std::cmp::Ordering;
+use std::collections::HashMap;
 
-pub struct Stub;
-pub static P: Stub = Stub;
+pub struct C10;
+pub static P: C10 = C10;
 
-impl Prop for Stub {
+const WORDS: [&str; 6] = ["ta", "tb", "tc", "td", "te", "tf"];
+const TAGS: [&str; 8] = ["alpha", "Beta", "gamma", "delta", "Epsilon", "zeta", "al", "alphabet"];
+const SORT_FIELDS: [&str; 6] = ["_score", "tag", "cat", "n", "m", "p"];
+
+fn kinds() -> Value {
+  json!({"tag": "kw", "cat": "kw", "n": "i64", "m": "i64", "p": "f64"})
+}
+
+#[derive(Clone, Debug, PartialEq)]
+enum V {
+  S(String),
+  I(i64),
+  F(f64),
+}
+
+fn cmp_v(a: &V, b: &V) -> Ordering {
+  match (a, b) {
+    (V::S(x), V::S(y)) => x.as_bytes().cmp(y.as_bytes()),
+    (V::I(x), V::I(y)) => x.cmp(y),
+    (V::F(x), V::F(y)) => x.total_cmp(y),
+    _ => Ordering::Equal,
+  }
+}
+
+/// the value the statement selects for one sort key: min for asc, max for desc, None = missing
+fn select(doc: &Value, field: &str, desc: bool, score: f64) -> Option<V> {
+  if field == "_score" {
+    return Some(V::F(score));
+  }
+  let raw: Vec<Value> = match doc.get(field) {
+    None | Some(Value::Null) => vec![],
+    Some(Value::Array(a)) => a.clone(),
+    Some(x) => vec![x.clone()],
+  };
+  let vals: Vec<V> = raw
+    .iter()
+    .filter_map(|x| match field {
+      "tag" | "cat" => x.as_str().map(|s| V::S(s.to_string())),
+      "n" | "m" => x.as_i64().map(V::I),
+      _ => x.as_f64().map(V::F),
+    })
+    .collect();
+  let mut it = vals.into_iter();
+  let first = it.next()?;
+  Some(it.fold(first, |best, v| {
+    let o = cmp_v(&v, &best);
+    if (desc && o == Ordering::Greater) || (!desc && o == Ordering::Less) {
+      v
+    } else {
+      best
+    }
+  }))
+}
+
+/// comparator of the statement on two hits
+fn cmp_hits(plan: &[(String, bool)], a: &(Value, f64, usize, usize), b: &(Value, f64, usize, usize)) -> Ordering {
+  for (f, desc) in plan {
+    let x = select(&a.0, f, *desc, a.1);
+    let y = select(&b.0, f, *desc, b.1);
+    let o = match (&x, &y) {
+      (None, None) => Ordering::Equal,
+      (None, Some(_)) => Ordering::Greater,
+      (Some(_), None) => Ordering::Less,
+      (Some(x), Some(y)) => {
+        let o = cmp_v(x, y);
+        if *desc {
+          o.reverse()
+        } else {
+          o
+        }
+      }
+    };
+    if o != Ordering::Equal {
+      return o;
+    }
+  }
+  a.2.cmp(&b.2).then(a.3.cmp(&b.3))
+}
+
+fn resolve_plan(sort: &[Value]) -> Vec<(String, bool)> {
+  if sort.is_empty() {
+    return vec![("_score".to_string(), true)];
+  }
+  sort
+    .iter()
+    .map(|s| {
+      let f = s["field"].as_str().unwrap_or("_score").to_string();
+      let desc = match s["order"].as_str() {
+        Some("desc") => true,
+        Some("asc") => false,
+        _ => f == "_score",
+      };
+      (f, desc)
+    })
+    .collect()
+}
+
+fn gen_sort_doc(rng: &mut Rng, id: String, vocab: usize) -> Value {
+  let mut d = gen_doc(rng, id, vocab, false);
+  // keyword fields: missing / single / multi-valued
+  for f in ["tag", "cat"] {
+    match rng.below(4) {
+      0 => {
+        d.as_object_mut().unwrap().remove(f);
+      }
+      1 | 2 => {
+        d[f] = json!(TAGS[rng.below(TAGS.len())]);
+      }
+      _ => {
+        let n = 2 + rng.below(2);
+        let vs: Vec<&str> = (0..n).map(|_| TAGS[rng.below(TAGS.len())]).collect();
+        d[f] = json!(vs);
+      }
+    }
+  }
+  // m: i64 with negatives, sometimes multi-valued or missing; few distinct values → ties
+  match rng.below(5) {
+    0 => {}
+    1 => {
+      let vs: Vec<i64> = (0..2 + rng.below(2)).map(|_| rng.range(-4, 4)).collect();
+      d["m"] = json!(vs);
+    }
+    _ => {
+      d["m"] = json!(rng.range(-4, 4));
+    }
+  }
+  // n, p (also read by score functions): sometimes multi-valued
+  if rng.chance(1, 5) {
+    let vs: Vec<i64> = (0..2 + rng.below(2)).map(|_| rng.below(60) as i64).collect();
+    d["n"] = json!(vs);
+  }
+  if rng.chance(1, 5) {
+    let vs: Vec<f64> = (0..2 + rng.below(2)).map(|_| rng.below(40) as f64 / 4.0).collect();
+    d["p"] = json!(vs);
+  }
+  d
+}
+
+fn term(w: &str, boost: Option<f64>) -> Value {
+  let mut t = json!({"type": "term", "field": "body", "value": w});
+  if let Some(b) = boost {
+    t["boost"] = json!(b);
+  }
+  t
+}
+
+fn gen_query(rng: &mut Rng, vocab: usize) -> (Value, &'static str) {
+  let mut ws: Vec<&str> = WORDS[..vocab].to_vec();
+  rng.shuffle(&mut ws);
+  let n = (1 + rng.below(3)).min(ws.len());
+  let bo = |rng: &mut Rng| match rng.below(3) {
+    0 => Some(2.0),
+    1 => Some(0.5),
+    _ => None,
+  };
+  let plain = |rng: &mut Rng| -> Value {
+    match rng.below(3) {
+      0 => json!({"type": "query_string", "query": ws[..n].join(" ")}),
+      1 => json!({"type": "bool", "should": ws[..n].iter().map(|w| term(w, bo(rng))).collect::<Vec<_>>()}),
+      _ => json!({"type": "dis_max", "queries": ws[..n].iter().map(|w| term(w, bo(rng))).collect::<Vec<_>>(), "tie_breaker": *rng.pick(&[0.0, 0.4, 1.0])}),
+    }
+  };
+  match rng.below(9) {
+    0 => (json!({"type": "match_all"}), "match_all"),
+    8 => (term(ws[0], bo(rng)), "single_term"),
+    1 => {
+      let inner = plain(rng);
+      let f = json!({"type": "field_value_factor", "field": *rng.pick(&["n", "p"]), "factor": *rng.pick(&[1.0, 0.5]), "modifier": *rng.pick(&["none", "log1p", "sqrt"]), "missing": 1.0});
+      (json!({"type": "function_score", "query": inner, "functions": [f], "boost_mode": *rng.pick(&["multiply", "sum", "replace"])}), "function_score")
+    }
+    2 => {
+      let inner = plain(rng);
+      (json!({"type": "script_score", "query": inner, "expr": ["+", ["*", "_score", *rng.pick(&[1.0, 2.0])], *rng.pick(&["n", "p"])]}), "script_score")
+    }
+    3 => (json!({"type": "rank_feature", "field": *rng.pick(&["n", "p"]), "modifier": *rng.pick(&["none", "log1p", "sqrt"]), "missing": 0.5}), "rank_feature"),
+    4 => {
+      let inner = plain(rng);
+      (json!({"type": "bool", "should": [inner, {"type": "rank_feature", "field": "n", "modifier": "log1p"}]}), "rank_feature+terms")
+    }
+    _ => (plain(rng), "plain"),
+  }
+}
+
+fn hits_of(resp: &Value) -> Ranking {
+  idx::hit_scores(resp)
+}
+
+impl Prop for C10 {
   fn id(&self) -> &'static str {
     "C10"
   }
   fn rule(&self) -> &'static str {
-    "stub"
+    "case = (1-4 segments of 4-40 random documents with missing / single / multi-valued keyword (tag, cat), i64 (n, m) and f64 (p) fast fields, optional deletes, a scored query (match_all, term/bool/dis_max/query_string with boosts, function_score, script_score, rank_feature), a sort plan of 0-3 keys over _score/tag/cat/n/m/p with asc/desc/default order, limit 1..30, execution strategy); every case is run with its limit and with a limit covering all matches; non-trivial = at least 3 matches and (a field key with a missing or multi-valued value among the matches, or a tie on the first key, or a pure score sort with >= 3 distinct scores); distinct = distinct case JSON"
   }
-  fn count(&self, _tier: Tier) -> usize {
-    0
+  fn count(&self, tier: Tier) -> usize {
+    tier.pick(400, 20000)
   }
-  fn gen(&self, _rng: &mut Rng, _tier: Tier, _i: usize) -> Value {
-    json!(null)
+  fn gen(&self, rng: &mut Rng, _tier: Tier, _i: usize) -> Value {
+    let nseg = 1 + rng.below(4);
+    let vocab = 3 + rng.below(4);
+    let mut segments = Vec::new();
+    let mut ids = Vec::new();
+    for s in 0..nseg {
+      let n = 4 + rng.below(37) / nseg.max(1) * 2;
+      let mut docs = Vec::new();
+      for d in 0..n {
+        let id = format!("s{s}d{d:04}");
+        ids.push(id.clone());
+        docs.push(gen_sort_doc(rng, id, vocab));
+      }
+      segments.push(Value::Array(docs));
+    }
+    let mut deletes: Vec<String> = Vec::new();
+    if rng.chance(1, 3) {
+      for _ in 0..1 + rng.below((ids.len() / 5).max(1)) {
+        let id = rng.pick(&ids).clone();
+        if !deletes.contains(&id) {
+          deletes.push(id);
+        }
+      }
+    }
+    let (query, kind) = gen_query(rng, vocab);
+    let nkeys = *rng.pick(&[0, 1, 1, 2, 2, 3]);
+    let mut fields: Vec<&str> = SORT_FIELDS.to_vec();
+    rng.shuffle(&mut fields);
+    let sort: Vec<Value> = fields[..nkeys]
+      .iter()
+      .map(|f| match rng.below(3) {
+        0 => json!({"field": f, "order": "asc"}),
+        1 => json!({"field": f, "order": "desc"}),
+        _ => json!({"field": f}),
+      })
+      .collect();
+    let limit = 1 + rng.below(30);
+    let plan = resolve_plan(&sort);
+    let fast = plan.len() == 1 && plan[0].0 == "_score" && plan[0].1;
+    // the default score sort prunes; C09 owns pruning, so it is run exhaustively here
+    let execution = if fast { "bm25" } else { *rng.pick(&["bm25", "wand", "bmw"]) };
+    json!({"kind": kind, "segments": segments, "deletes": deletes, "query": query, "sort": sort, "limit": limit, "execution": execution})
   }
-  fn run_case(&self, _drv: &mut Driver, _case: &Value, _s: &mut Summary) {}
+
+  fn run_case(&self, drv: &mut Driver, case: &Value, s: &mut Summary) {
+    let segments = case["segments"].as_array().cloned().unwrap_or_default();
+    let deletes: Vec<String> = case["deletes"].as_array().map(|a| a.iter().filter_map(|x| x.as_str().map(|s| s.to_string())).collect()).unwrap_or_default();
+    let limit = case["limit"].as_u64().unwrap_or(5) as usize;
+    let sort = case["sort"].as_array().cloned().unwrap_or_default();
+    let plan = resolve_plan(&sort);
+    let (repo_q, model_q) = split_query(&case["query"]);
+    let dir = scratch();
+    let index = match build_index(dir.path(), &segments, &deletes) {
+      Ok(i) => i,
+      Err(e) => {
+        s.case(case, false);
+        s.disagree("setup", case, json!({"error": e}), json!(null));
+        return;
+      }
+    };
+    let reader = match index.reader() {
+      Ok(r) => r,
+      Err(e) => {
+        s.case(case, false);
+        s.disagree("setup", case, json!({"error": e.to_string()}), json!(null));
+        return;
+      }
+    };
+    // document table: id → (doc, segment ordinal, doc ordinal)
+    let mut table: HashMap<String, (Value, usize, usize)> = HashMap::new();
+    let mut total_docs = 0usize;
+    for (si, seg) in segments.iter().enumerate() {
+      for (di, d) in seg.as_array().cloned().unwrap_or_default().into_iter().enumerate() {
+        total_docs += 1;
+        table.insert(d["_id"].as_str().unwrap_or("").to_string(), (d, si, di));
+      }
+    }
+    let mk = |lim: usize| json!({"query": repo_q, "limit": lim, "sort": sort, "execution": case["execution"], "return_stored": false});
+    let (page, all) = match (idx::search(&reader, &mk(limit)), idx::search(&reader, &mk(total_docs + 5))) {
+      (idx::Outcome::Ok(a), idx::Outcome::Ok(b)) => (hits_of(&a), hits_of(&b)),
+      (a, b) => {
+        s.case(case, false);
+        s.fail("search.error", "search returned an error or panicked on a well-formed sorted request", case, json!({"limit": a.to_json(), "all": b.to_json()}));
+        return;
+      }
+    };
+    s.count(&format!("kind.{}", case["kind"].as_str().unwrap_or("?")));
+    s.count(&format!("keys.{}", sort.len()));
+    s.count(&format!("segments.{}", segments.len()));
+    for (f, d) in &plan {
+      s.count(&format!("key.{}.{}", f, if *d { "desc" } else { "asc" }));
+    }
+    if !deletes.is_empty() {
+      s.count("with_deletes");
+    }
+    // ---- non-triviality
+    let rows: Vec<(Value, f64, usize, usize)> = all
+      .iter()
+      .filter_map(|(id, sc)| table.get(id).map(|(d, si, di)| (d.clone(), *sc, *si, *di)))
+      .collect();
+    let mut interesting = false;
+    if rows.len() >= 3 {
+      let (f0, d0) = &plan[0];
+      let firsts: Vec<Option<V>> = rows.iter().map(|r| select(&r.0, f0, *d0, r.1)).collect();
+      let ties = (1..firsts.len()).any(|i| firsts[i] == firsts[i - 1]);
+      let missing_or_multi = plan.iter().any(|(f, _)| f != "_score" && rows.iter().any(|r| matches!(r.0.get(f.as_str()), None | Some(Value::Array(_)))));
+      let distinct_scores = {
+        let mut v: Vec<u64> = rows.iter().map(|r| r.1.to_bits()).collect();
+        v.sort();
+        v.dedup();
+        v.len()
+      };
+      interesting = ties || missing_or_multi || (f0 == "_score" && distinct_scores >= 3);
+    }
+    s.case(case, interesting);
+    if rows.len() != all.len() {
+      s.fail("sort.unknown-id", "a hit carries an id that was never indexed", case, json!({"all": all.len(), "known": rows.len()}));
+      return;
+    }
+    // ---- finder (a): the page is the prefix of all matches
+    let want: Vec<&String> = all.iter().take(limit).map(|h| &h.0).collect();
+    let got: Vec<&String> = page.iter().map(|h| &h.0).collect();
+    if want != got {
+      s.fail("sort.prefix", "the hits of the request are not the limit-prefix of all matches in the same order", case, json!({"page": got, "all_prefix": want}));
+    }
+    // ---- finder (b): all matches are ordered by the statement's comparator
+    for i in 1..rows.len() {
+      if cmp_hits(&plan, &rows[i - 1], &rows[i]) == Ordering::Greater {
+        let key = |r: &(Value, f64, usize, usize)| json!({"id": r.0["_id"], "score": r.1, "seg": r.2, "doc": r.3, "keys": plan.iter().map(|(f, d)| format!("{:?}", select(&r.0, f, *d, r.1))).collect::<Vec<_>>()});
+        s.fail("sort.order", "two consecutive hits are not in the order of the sort spec (min for asc / max for desc, missing last, segment then document order on ties)", case, json!({"position": i, "a": key(&rows[i - 1]), "b": key(&rows[i]), "plan": plan.iter().map(|(f, d)| format!("{f}:{}", if *d { "desc" } else { "asc" })).collect::<Vec<_>>()}));
+        break;
+      }
+    }
+    // ---- finder (c): a bare rank_feature query scores every document with modifier(value),
+    // value = the document's own (first) value of the field or `missing` — evaluated directly
+    if case["query"]["type"] == json!("rank_feature") {
+      let q = &case["query"];
+      let f = q["field"].as_str().unwrap_or("n");
+      let missing = q["missing"].as_f64().unwrap_or(0.0) as f32 as f64;
+      let boost = q["boost"].as_f64().unwrap_or(1.0);
+      for r in rows.iter() {
+        let own: Option<f64> = match r.0.get(f) {
+          Some(Value::Array(a)) => a.first().and_then(|x| x.as_f64()),
+          Some(x) => x.as_f64(),
+          None => None,
+        };
+        let raw = own.unwrap_or(missing);
+        let m = match q["modifier"].as_str().unwrap_or("none") {
+          "log1p" => if raw <= -1.0 { 0.0 } else { raw.ln_1p() },
+          "sqrt" => if raw < 0.0 { 0.0 } else { raw.sqrt() },
+          "log" => if raw <= 0.0 { 0.0 } else { raw.ln() },
+          "reciprocal" => if raw == 0.0 { 0.0 } else { 1.0 / raw },
+          _ => raw,
+        };
+        let want = (m as f32 as f64) * boost;
+        if !idx::close(want, r.1, 2e-5) {
+          let seg_has_list = segments[r.2].as_array().map(|a| a.iter().any(|d| matches!(d.get(f), Some(Value::Array(_))))).unwrap_or(false);
+          let obs = json!({"id": r.0["_id"], "field": f, "own_value": own, "expected_score": want, "observed_score": r.1});
+          if own.is_none() && seg_has_list {
+            s.fail("score.list-column-missing", "a document without a value for the numeric field of rank_feature is scored with another document's value when the segment holds a multi-valued document for that field (single-value read of a list column ignores the empty range)", case, obs);
+          } else {
+            s.fail("score.rank-feature", "rank_feature score differs from modifier(value or missing) * boost", case, obs);
+          }
+          break;
+        }
+      }
+    }
+    // ---- finder (d): a single term query scores every hit with BM25 of the statement:
+    // idf(N_live, df) * tf*(k1+1) / (tf + k1*(1-b+b*len/avgdl)) * boost, per segment
+    if case["kind"] == json!("single_term") && plan.iter().any(|(f, _)| f == "_score") {
+      let q = &case["query"];
+      let w = q["value"].as_str().unwrap_or("");
+      let boost = q["boost"].as_f64().unwrap_or(1.0);
+      let (k1, b) = (1.2f64, 0.75f64);
+      for r in rows.iter() {
+        let seg = segments[r.2].as_array().cloned().unwrap_or_default();
+        let toks = |d: &Value| -> Vec<String> { d["body"].as_str().unwrap_or("").split_whitespace().map(|x| x.to_string()).collect() };
+        let n_live = seg.iter().filter(|d| !deletes.contains(&d["_id"].as_str().unwrap_or("").to_string())).count() as f64;
+        let df = seg.iter().filter(|d| toks(d).iter().any(|t| t == w)).count() as f64;
+        let total: usize = seg.iter().map(|d| toks(d).len()).sum();
+        let avgdl = total as f64 / seg.len() as f64;
+        let mine = toks(&r.0);
+        let tf = mine.iter().filter(|t| *t == w).count() as f64;
+        let len = mine.len() as f64;
+        let idf = ((n_live - df + 0.5) / (df + 0.5)).ln().max(0.0) + 1.0;
+        let want = idf * (tf * (k1 + 1.0)) / (tf + k1 * (1.0 - b + b * len / avgdl)) * boost;
+        if !idx::close(want, r.1, 2e-5) {
+          s.fail("score.bm25", "the score of a single term query differs from BM25 with the index k1/b and the segment's statistics (N = live docs, df, avgdl, field length) times the boost", case, json!({"id": r.0["_id"], "expected": want, "observed": r.1, "tf": tf, "len": len, "df": df, "n_live": n_live, "avgdl": avgdl}));
+          break;
+        }
+      }
+    }
+    // deleted documents must not appear
+    if let Some(h) = all.iter().find(|h| deletes.contains(&h.0)) {
+      s.fail("sort.deleted-hit", "a deleted document is returned", case, json!({"id": h.0}));
+    }
+
+    // ---- correspondence
+    let schema = idx::schema(&schema_json()).unwrap();
+    let model = match analysed_segments(&schema, &segments, &deletes) {
+      Ok(segs) => drv.call(
+        "C10",
+        json!({"op": "search", "k1": 1.2, "b": 0.75, "text_fields": TEXT_FIELDS, "segments": segs, "query": model_q, "sort": sort, "kinds": kinds(), "limit": limit}),
+      ),
+      Err(e) => json!({"ok": false, "error": e}),
+    };
+    if model["ok"] != json!(true) {
+      s.disagree("model.error", case, json!(null), model);
+      return;
+    }
+    if model["eq_spec"] != json!(true) || model["shaped"] != json!(true) {
+      s.disagree("monitor.search_sorted", case, json!(null), json!({"eq_spec": model["eq_spec"], "shaped": model["shaped"]}));
+    }
+    let mpage: Vec<String> = model["hits"].as_array().map(|a| a.iter().map(|h| h["id"].as_str().unwrap_or("?").to_string()).collect()).unwrap_or_default();
+    let mh: Ranking = model["all"].as_array().map(|a| a.iter().map(|h| (h["id"].as_str().unwrap_or("?").to_string(), h["score"].as_f64().unwrap_or(f64::NAN))).collect()).unwrap_or_default();
+    let uses_score = plan.iter().any(|(f, _)| f == "_score");
+    let hook = has_hook(&case["query"]);
+    let mut ok = mh.len() == all.len();
+    if ok {
+      for i in 0..mh.len() {
+        if !idx::close(mh[i].1, all[i].1, 2e-5) {
+          ok = false;
+          break;
+        }
+        if mh[i].0 != all[i].0 {
+          // a swap is only acceptable between hits whose scores are equal within tolerance and
+          // only when the score takes part in the order
+          let other = all.iter().find(|h| h.0 == mh[i].0).map(|h| h.1);
+          if !(uses_score && other.map(|o| idx::close(o, all[i].1, 2e-5)).unwrap_or(false)) {
+            ok = false;
+            break;
+          }
+        }
+      }
+    }
+    if !ok {
+      s.disagree("sorted.hits", case, json!(all.iter().map(|h| json!([h.0, h.1])).collect::<Vec<_>>()), json!(mh.iter().map(|h| json!([h.0, h.1])).collect::<Vec<_>>()));
+    }
+    if hook {
+      s.count("with_score_hook");
+    }
+    // the model's page for the request's own limit (bounded heap / per-segment top-k + merge)
+    let mall_prefix: Vec<String> = mh.iter().take(limit).map(|h| h.0.clone()).collect();
+    if mpage != mall_prefix {
+      s.disagree("model.page_prefix", case, json!(null), json!({"page": mpage, "all_prefix": mall_prefix}));
+    }
+  }
+  fn finish(&self, _tier: Tier, s: &mut Summary) {
+    s.notes.push("finder: prefix property and the statement's comparator recomputed from the documents; correspondence: order and scores of ALL matches against SL.Sort.search / SL.Bm25".into());
+  }
 }
